@@ -149,6 +149,13 @@ def generate(world: World, interp: Interp, fi: FunctionInfo, contract: Contract,
     return rep
 
 
+def _decl_name(decl: str) -> str:
+    body = decl[len("(declare-const ") :]
+    if body.startswith("|"):
+        return body[: body.index("|", 1) + 1]
+    return body.split()[0]
+
+
 def build_script(world: World, obligations: List[Obligation], solver: str, timeout_ms: int, with_models: bool = False) -> str:
     lines = [smt.prelude(timeout_ms, solver)]
     lines.extend(world.global_decls)
@@ -163,7 +170,7 @@ def build_script(world: World, obligations: List[Obligation], solver: str, timeo
                 lines.append(f"(assert {a})")
         lines.append("(check-sat)")
         if with_models:
-            names = [d.split()[1] for d in ob.decls if d.startswith("(declare-const")]
+            names = [_decl_name(d) for d in ob.decls if d.startswith("(declare-const")]
             if names:
                 lines.append("(get-value (" + " ".join(names) + "))")
         lines.append("(pop 1)")
@@ -231,3 +238,46 @@ def cross_check(world: World, obligations: List[Obligation], solver: str, timeou
         elif a in ("sat", "unsat"):
             dis.append(f"{o.name}: {o.backend}={o.answer} {solver}={a}")
     return agree, dis, dt
+
+
+def generate_post(world: World, interp: Interp, fi: FunctionInfo, params, pre, post, label: str) -> FunctionReport:
+    """Relational contract: post(ctx, args, impl_outcome) -> Bool term that must hold on every path."""
+
+    def run(ctx: Ctx):
+        args = {}
+        for name, spec in params:
+            if callable(spec):
+                args[name] = spec(ctx, name)
+            else:
+                args[name] = new_value(ctx, name, list(spec))
+                ctx.assume(dyn_range_constraint(ctx, args[name]))
+        ctx.assume(pre(ctx, args))
+        ctx.ghost["inline:" + fi.qualname] = True
+        try:
+            rv = interp.exec_function(ctx, fi, [args[n] for n, _ in params], {})
+            impl = ("return", rv)
+        except PyRaise as e:
+            impl = ("raise", e.exc, e.args_v)
+        ctx.ghost.pop("inline:" + fi.qualname, None)
+        try:
+            m = post(ctx, args, impl)
+        except PyRaise:
+            m = FALSE
+        return {"impl": impl, "match": m}
+
+    rep = FunctionReport(function=label, source=fi.source_file, obligations=[])
+    try:
+        paths = explore(world, run)
+    except Unsupported as u:
+        rep.unsupported = str(u)
+        return rep
+    rep.paths = len(paths)
+    for i, p in enumerate(paths):
+        impl = p.outcome["impl"]
+        desc = f"{impl[0]} {describe_value(impl[1]) if impl[0]=='return' else impl[1]}"
+        meta = {"path": i, "decisions": p.decisions, "impl": desc, "spec": "relational postcondition"}
+        rep.obligations.append(Obligation(f"{label}:path{i}:reach", "reach", p.decls, list(p.pc), "sat", dict(meta)))
+        rep.obligations.append(Obligation(f"{label}:path{i}:post", "post", p.decls, list(p.pc) + [Not(p.outcome["match"])], "unsat", dict(meta)))
+        for j, (lab, t) in enumerate(p.side_obligations):
+            rep.obligations.append(Obligation(f"{label}:path{i}:{lab}#{j}", "call-pre", p.decls, [t], "unsat", dict(meta)))
+    return rep
